@@ -25,6 +25,13 @@ MAX_DEPTH = 14
 OPAQUE_MODULES = ("coxeter.extern.bentley_ottmann",)
 
 
+def batch_tag(*vals):
+    for v in vals:
+        if v is not None and "batch" in v.tags:
+            return frozenset(["batch"])
+    return frozenset()
+
+
 def ret_tags(*vals):
     """provenance tags ('ret', callee) / ('len-of', params) carried through tests."""
     out = set()
@@ -228,7 +235,8 @@ class Interp:
         loc = ("param", name)
         scalar = kind in ("float", "int", "bool", "str")
         v = Val(dim=dim, kind=kind, al=frozenset() if scalar else frozenset([loc]), deps=frozenset([loc]),
-                pdeps=frozenset([name]), guardp=frozenset([name]), born=0)
+                pdeps=frozenset([name]), guardp=frozenset([name]), born=0,
+                tags=frozenset() if scalar else frozenset(["param-root"]))
         if kind in ("float", "int"):
             v.sym = Poly.atom(f"param.{name}")
         return v
@@ -990,6 +998,15 @@ class Interp:
         return False
 
     def subscript(self, base: Val, idx: Val, node, st) -> Val:
+        self._rawuse(st, node, base)
+        out = self._subscript(base, idx, node, st)
+        if "batch" in base.tags or "batch" in idx.tags:
+            first = idx.items[0] if (idx.kind == "indextuple" and idx.items) else idx
+            if first.kind != "int" and not (first.has_const() and isinstance(first.const, int)):
+                out = out.copy(tags=out.tags | {"batch"})
+        return out
+
+    def _subscript(self, base: Val, idx: Val, node, st) -> Val:
         # containers with known items
         if base.items is not None and idx.has_const() and isinstance(idx.const, int) and not isinstance(idx.const, bool):
             try:
@@ -1017,7 +1034,7 @@ class Interp:
             raise AbortPath()
         if base.kind in ("dict",):
             e = base.elem if base.elem is not None else Val()
-            return e
+            return e.copy(deps=e.deps | idx.deps | base.deps, pdeps=e.pdeps | idx.pdeps | base.pdeps)
         if base.kind in ("list", "tuple", "set", "gen", "idxlist") and base.kind != "arr":
             if idx.kind == "slice":
                 return base
@@ -1109,7 +1126,20 @@ class Interp:
         r = self.ev(n.right, st)
         return self.binop(n.op, l, r, st, n)
 
+    def _rawuse(self, st, node, *vals):
+        for v in vals:
+            if v is not None and "param-root" in v.tags and v.kind in ("arr", "unknown"):
+                self.emit(st, "rawuse", node, param=next(iter(v.al))[1] if v.al else "?", value=v)
+
     def binop(self, op, l: Val, r: Val, st, node) -> Val:
+        self._rawuse(st, node, l, r)
+        out = self._binop(op, l, r, st, node)
+        bt = batch_tag(l, r)
+        if bt and out.kind not in ("str",):
+            out.tags = out.tags | bt
+        return out
+
+    def _binop(self, op, l: Val, r: Val, st, node) -> Val:
         now = self.time
         deps = l.deps | r.deps
         pdeps = l.pdeps | r.pdeps
@@ -1236,9 +1266,9 @@ class Interp:
                 o.deps, o.pdeps = v.deps, v.pdeps
                 return o
             return Val(dim=v.dim, kind=v.kind, deps=v.deps, pdeps=v.pdeps, sym=(-v.sym) if v.sym is not None else None,
-                       born=self.time, tags=frozenset([("neg-of",) + tuple(sorted(v.al))]) if v.al else frozenset())
+                       born=self.time, tags=(frozenset([("neg-of",) + tuple(sorted(v.al))]) if v.al else frozenset()) | batch_tag(v))
         if isinstance(n.op, ast.Invert):
-            return Val(dim=D0, kind=v.kind, deps=v.deps, pdeps=v.pdeps, born=self.time)
+            return Val(dim=D0, kind=v.kind, deps=v.deps, pdeps=v.pdeps, born=self.time, tags=batch_tag(v))
         return v.copy(al=frozenset(), born=self.time)
 
     def e_BoolOp(self, n, st):
@@ -1284,7 +1314,8 @@ class Interp:
             except Exception:
                 const = NOCONST
         kind = "arr" if "arr" in [left.kind] + [r.kind for r in rights] else "bool"
-        out = Val(kind=kind, dim=D0, deps=deps, pdeps=pdeps, const=const, tags=ret_tags(left, *rights) | tags, born=self.time)
+        out = Val(kind=kind, dim=D0, deps=deps, pdeps=pdeps, const=const,
+                  tags=ret_tags(left, *rights) | tags | batch_tag(left, *rights), born=self.time)
         out.extra = ("cmp", n, left, rights)
         return out
 
@@ -1506,7 +1537,14 @@ class Interp:
                 fr = self.frames[-1]
                 return Val(kind="super", extra=(fr.fn.cls, fr.selfobj), dim=D0)
             self.stats["ext_calls"] += 1
+            short = f.ext.rsplit(".", 1)[-1]
+            if short not in ("atleast_2d", "asarray", "array", "atleast_1d", "asanyarray", "isinstance", "len"):
+                self._rawuse(st, node, *args)
             r = self.np.call_ext(self, f.ext, node, args, kwargs, st)
+            if short in ("atleast_2d",) and args:
+                r.tags = r.tags | {"batch2d", "batch"}
+            elif batch_tag(*args) and short not in self.np.REDUCING and r.kind not in ("str", "int"):
+                r.tags = r.tags | {"batch"}
             if not r.has_const():
                 extra_t = frozenset([("ret", self.np.canonical(f.ext))]) | (
                     ret_tags(*args) if f.ext.startswith("builtins.") or f.ext.rsplit(".", 1)[-1] in
@@ -1516,7 +1554,12 @@ class Interp:
                     r.items = tuple(i.copy(tags=i.tags | extra_t) if not i.has_const() else i for i in r.items)
             return r
         if f.kind == "arrmethod":
-            return self.np.call_method(self, f.base, f.name, node, args, kwargs, st)
+            self._rawuse(st, node, f.base)
+            r = self.np.call_method(self, f.base, f.name, node, args, kwargs, st)
+            has_axis = bool(args) or "axis" in kwargs
+            if "batch" in f.base.tags and (f.name not in self.np.REDUCING or has_axis) and not r.has_const():
+                r.tags = r.tags | {"batch"}
+            return r
         if f.kind == "unknown" and f.fn is not None:
             return self.call_function(f.fn, f.base, args, kwargs, st, node)
         deps = frozenset()
